@@ -69,8 +69,8 @@ VALID = {
     "WATCHDOG_TIMEOUT": st.one_of(st.sampled_from([0, 1, 30, 60, 2**31]), st.integers(0, 10**6)),
 }
 INVALID = {
-    "MODE": st.sampled_from(["client", "Client", "server", "PROXY", "", "CLIENT ", 1, None, ["CLIENT"]]),
-    "TRANSPORT_TYPE": st.sampled_from(["tcp", "Tcp", "sctp", "UDP", "TLS", "TCP ", 6, ["TCP"]]),
+    "MODE": st.sampled_from(["client", "Client", "server", "PROXY", "", "CLIENT ", 1, None, ["CLIENT"], "C", "LIENT", "SERVE", "CLIENTSERVER", "ENT"]),
+    "TRANSPORT_TYPE": st.sampled_from(["tcp", "Tcp", "sctp", "UDP", "TLS", "TCP ", 6, ["TCP"], "T", "CP", "SCT", "TCPSCTP", "PS", "TCP,SCTP", "TCP\n"]),
     "APPLICATIONS": apps_invalid,
     "LOCAL_NODE_IP_ADDRESS": bad_ip, "PEER_NODE_IP_ADDRESS": bad_ip,
     "WATCHDOG_TIMEOUT": st.sampled_from(["30", {"$float": "30.0"}, {"$float": "1.5"}, None, "", [30], B("0000001e")]),
